@@ -59,10 +59,14 @@ def check(job):
         return out
     e = exp[0]
     want_lines = {l - 1 for l in e["lines"]}
+    # a rendering without any free-form cue is classified as fixed form (recorded finding, see C13/C14):
+    # its lines beginning with c / d / * are comments then
+    from .c13 import free_undetectable
+    und = {"form:freeUndetectable"} if free_undetectable(lines) else set()
     hit = [g for g in got if g[0] == e["class"] and g[1] == e["sev"] and g[2] in want_lines]
     if not hit:
         near = [g for g in got if g[0] == e["class"]]
-        out.append(({"defect:missing" if not near else "defect:wrongLineOrSeverity", "class:" + e["class"]},
+        out.append(({"defect:missing" if not near else "defect:wrongLineOrSeverity", "class:" + e["class"]} | und,
                     {"lines": lines, "expected": {"class": e["class"], "sev": e["sev"], "lines": sorted(want_lines)}, "diagnostics": got}))
     other = [g for g in got if g[1] == 1 and g[0] != e["class"]]
     if other:
